@@ -1,6 +1,7 @@
 """Checks for the agent properties C05 C06 C07 C15 C18 C20 (DESIGN.md sections 3.1, 4, 5)."""
 import concurrent.futures as cf
 import json
+import subprocess
 import os
 import random
 import time
@@ -577,6 +578,53 @@ def hook_validation(pid, tier, seed, wd, rep):
     return st
 
 
+# --------------------------------------------------------------------------- inductive invariant (Apalache) + its tie to StunAgent (TLC)
+def ind_refinement(name):
+    res = run_tlc("MCAgentInd.tla", "MCAgentInd_%s.cfg" % name, workers=4, timeout=3000)
+    tlc_ok(res, "MCAgentInd " + name)
+    return "ind_" + name, res
+
+
+def apalache_agent(wd, tier):
+    """spec/StunAgentInd.tla: Init0 => IndInv (length 0) and IndInv /\\ INext => IndInv' from ANY state satisfying it (length 1),
+    plus a reachability witness (the arbitrary initial states are not all trivial).  The outcome cannot depend on the code:
+    a violated invariant is a defect of the specification (tool error); an unavailable or slow Apalache is recorded and
+    nothing more."""
+    if shutil.which("apalache-mc") is None:
+        return {"ran": False, "why": "apalache-mc not on PATH"}
+    res = {}
+    # (quick: one transaction - the invariant is per transaction and every action touches one; thorough: two, both transports)
+    cases = [("udp_base", "ConstInitUdp", ["--init=Init0", "--inv=IndInv", "--length=0"], "NoError"),
+             ("udp_step_1tid", "ConstInitUdp1", ["--init=IndInit", "--inv=IndInv", "--length=1"], "NoError")]
+    if tier == "thorough":
+        cases += [("udp_step", "ConstInitUdp", ["--init=IndInit", "--inv=IndInv", "--length=1"], "NoError"),
+                  ("tcp_base", "ConstInitTcp", ["--init=Init0", "--inv=IndInv", "--length=0"], "NoError"),
+                  ("tcp_step", "ConstInitTcp", ["--init=IndInit", "--inv=IndInv", "--length=1"], "NoError"),
+                  ("udp_witness", "ConstInitUdp", ["--init=IndInit", "--inv=IndWitness", "--length=0"], "Error")]
+    for name, cinit, args, want in cases:
+        out_dir = os.path.join(wd, "apalache_" + name)
+        t0 = time.time()
+        try:
+            p = subprocess.run(["apalache-mc", "check", "--cinit=" + cinit, "--next=INext", "--out-dir=" + out_dir] + args + ["StunAgentInd.tla"],
+                               cwd=SPEC, capture_output=True, text=True, timeout=900 if tier == "quick" else 3000)
+        except subprocess.TimeoutExpired:
+            res[name] = {"outcome": "timeout"}
+            continue
+        finally:
+            shutil.rmtree(out_dir, ignore_errors=True)
+        txt = p.stdout + p.stderr
+        got = "NoError" if "The outcome is: NoError" in txt else "Error" if "The outcome is: Error" in txt else "?"
+        if got == "?":
+            res[name] = {"outcome": "did not finish cleanly: " + txt[-200:]}
+            continue
+        if got != want:
+            raise ToolError("StunAgentInd (%s): expected %s, Apalache says %s - the specification is wrong:\n%s" % (name, want, got, txt[-1500:]))
+        res[name] = {"outcome": got, "t": round(time.time() - t0, 1)}
+    return {"ran": True, "module": "StunAgentInd.tla",
+            "statement": "Rel (the agent's record of every open transaction is the one the events determine) with ScheduleInv, CancelInv, PromiseInv and LifeInv at symbolic instants is inductive: all integer instants, no monotonicity, every initial_rto / last timeout >= 0, retransmits 0..8, the code's real default schedules, two transactions",
+            **res}
+
+
 # --------------------------------------------------------------------------- entry
 def run(pid, tier, seed):
     rep = Report(pid, tier, seed, "model_checking")
@@ -588,6 +636,13 @@ def run(pid, tier, seed):
     mcstats = {}
     with cf.ThreadPoolExecutor(max_workers=6) as ex:
         futs = [ex.submit(mc_run, m) for m in mcs]
+        apa = None
+        if pid in ("C05", "C06"):
+            # the Apalache-typed core is the same machine as StunAgent + ghost (TLC, every transition of a bounded model) ...
+            futs += [ex.submit(ind_refinement, nm) for nm in (["time2"] if tier == "quick" else ["time2", "life2", "time1_tcp"])]
+            # ... and its invariant is inductive (Apalache; C06 only in the quick tier, it takes a minute or two)
+            if pid == "C06" or tier == "thorough":
+                apa = ex.submit(apalache_agent, wd, tier)
         if pid == "C20":
             for nm in (["d7"] if tier == "quick" else ["d7", "d1", "d7_time"]):
                 if os.path.exists(os.path.join(SPEC, "StunAgentShift_%s.cfg" % nm)):
@@ -618,6 +673,8 @@ def run(pid, tier, seed):
             mcstats[name] = dict(generated=res["generated"], distinct=res["distinct"], wall=round(res["wall"], 1))
             states += res["distinct"]
             transitions += res["generated"]
+    if apa is not None:
+        rep.add_cov(apalache_inductive_invariant=apa.result())
     for st in b1stats:
         states += st["tlc_distinct"]
         transitions += st["tlc_generated"]
